@@ -193,7 +193,7 @@ type encVP struct {
 
 // encINITVoteproof builds an INIT voteproof at point. mode: "majority", "draw", "expel", "stuck".
 func encINITVoteproof(rt *rapid.T, point base.Point, mode string, prev, proposal util.Hash) encVP {
-	th := base.Threshold(rapid.SampledFrom([]float64{67, 60, 100, 66.7}).Draw(rt, "threshold"))
+	th := base.Threshold(rapid.SampledFrom([]float64{67, 60, 100, 66.7, 66.67, 51.25, 99.999, 75.55}).Draw(rt, "threshold"))
 
 	switch mode {
 	case "expel", "stuck":
@@ -263,7 +263,7 @@ func encINITVoteproof(rt *rapid.T, point base.Point, mode string, prev, proposal
 }
 
 func encACCEPTVoteproof(rt *rapid.T, point base.Point, mode string, proposal, newblock util.Hash) encVP {
-	th := base.Threshold(rapid.SampledFrom([]float64{67, 60, 100, 66.7}).Draw(rt, "threshold"))
+	th := base.Threshold(rapid.SampledFrom([]float64{67, 60, 100, 66.7, 66.67, 51.25, 99.999, 75.55}).Draw(rt, "threshold"))
 
 	switch mode {
 	case "expel", "stuck":
